@@ -59,7 +59,8 @@ def same_tree(a, b, code):
 class C19(Prop):
     id = 'C19'
     rule = ('Generated: trees from adversarial texts / mutated real code x 9 versions x dump indent in {None,0,1,4,"","\\t","  "} x '
-            'pickle protocols 2..HIGHEST x a drawn antichain of nodes/leaves (pairwise disjoint) with replacement strings. Oracle: '
+            'pickle protocols 2..HIGHEST x tree state {fresh; used: name index / error listing / PEP 8 listing / leaf navigation run first; diffed: the '
+            'same tree reached by an in-place diff_cache update; unpickled: already through one pickle round trip} x a drawn antichain of nodes/leaves (pairwise disjoint) with replacement strings. Oracle: '
             'pickle round trip and eval(dump(indent)) give a tree equal under own comparator (class, type, value, prefix, positions, '
             'token_type, child counts), consistent parents, same get_code and dump; refactor(m, {}) == text; refactor(m, mapping) == '
             'text with each mapped span [offset of first leaf prefix, end of last leaf) replaced (offsets by running sums). '
@@ -74,6 +75,8 @@ class C19(Prop):
         return st.fixed_dictionaries({
             'code': text, 'version': T.version(),
             'indent': st.sampled_from(INDENTS), 'protocol': st.integers(2, pickle.HIGHEST_PROTOCOL),
+            # where the tree comes from / what was done with it before it is serialised
+            'state': st.sampled_from(['fresh', 'fresh', 'used', 'used', 'diffed', 'unpickled']),
             'targets': st.lists(st.tuples(st.integers(0, 10 ** 6), st.sampled_from(REPLACEMENTS)), max_size=5)})
 
     def check(self, case):
@@ -87,6 +90,32 @@ class C19(Prop):
             return Outcome(fail=crash_signature(e), nontrivial=True, key=digest(code, v))
         fail = None
         ntargets = 0
+        state = case.get('state', 'fresh')
+        try:
+            if state == 'used':
+                # every lazily filled slot of the tree: name index, error listing, PEP 8 listing, navigation
+                m.get_used_names()
+                list(g.iter_errors(m))
+                g._get_normalizer_issues(m)
+                leaf = m.get_first_leaf()
+                while leaf is not None:
+                    leaf = leaf.get_next_leaf()
+                m.get_code()
+            elif state == 'diffed':
+                from .c20 import diff_parse
+                lines = code.split('\n')
+                earlier = '\n'.join(lines[:len(lines) // 2] + ['pass'] + lines[len(lines) // 2:])
+                md = diff_parse(g, [earlier, code], digest(code, v, 'c19').hex(), after_each=lambda mod: mod.get_used_names())
+                if first_tree_diff(m, md) is None:
+                    m = md        # same tree (C04's claim), other provenance
+                else:
+                    state = 'fresh'
+            elif state == 'unpickled':
+                m = pickle.loads(pickle.dumps(m, protocol=case['protocol']))
+        except RecursionError:
+            return Outcome(excluded='recursion-limit')
+        except Exception as e:
+            return Outcome(fail=crash_signature(e), nontrivial=True, key=digest(code, v, state))
         try:
             m2 = pickle.loads(pickle.dumps(m, protocol=case['protocol']))
             d = same_tree(m, m2, code)
@@ -137,8 +166,9 @@ class C19(Prop):
                 classes.append(c)
         if ntargets >= 2:
             classes.append('multi-target')
+        classes.append('state:' + state)
         nt = bool(set(classes) & {'param', 'error', 'fstring', 'keyword-stmt', 'multi-target'})
-        return Outcome(fail=fail, nontrivial=nt, classes=classes, key=digest(code, v, case['indent'], case['protocol'], case['targets']))
+        return Outcome(fail=fail, nontrivial=nt, classes=classes, key=digest(code, v, case['indent'], case['protocol'], case['targets'], state))
 
     def sample_repr(self, case):
         d = dict(case)
